@@ -1859,6 +1859,7 @@ impl<'c> Hist<'c> {
 				Err(e) => {
 					// which live roots reach the node the message names (diagnosis aid)
 					let mut who = String::new();
+					let mut tainted_owner: Option<Vec<u8>> = None;
 					if let Some(id) = e.split("live node ").nth(1).and_then(|x| x.split(' ').next()).and_then(|x| x.parse::<u64>().ok()) {
 						let mut owners = vec![];
 						for (rk, r) in &tm.roots {
@@ -1870,6 +1871,9 @@ impl<'c> Hist<'c> {
 								}
 								if n == id {
 									owners.push(short_bytes(rk));
+									if self.tainted.contains(&(c, rk.clone())) {
+										tainted_owner = Some(rk.clone());
+									}
 									break
 								}
 								if let Some(m) = tm.nodes.get(&n) {
@@ -1878,6 +1882,17 @@ impl<'c> Hist<'c> {
 							}
 						}
 						who = format!(" [model: node {} has {} parent reference(s), reachable from live root(s) {:?}]", id, tm.nodes.get(&id).map_or(0, |n| n.refs), owners);
+					}
+					if let Some(o) = tainted_owner {
+						// the lost node also belongs to a tree whose root a postponed transaction and a
+						// transaction that overtook it both touched (F4): e.g. [InsertTree(r), ..]
+						// postponed behind ReferenceTree(r) - the reference is ignored (no such root
+						// yet), the tree ends with one count less than in commit order, a later
+						// dereference removes it, and trees that share its nodes lose them
+						return fail(
+							"failure=deferred_commit_reordered_writes;what=shared_node_of_reordered_tree",
+							format!("tree {} lost a node it shares with tree {}, whose root was written by a postponed transaction and by a transaction that overtook it: {}{}", short_bytes(k), short_bytes(&o), e, who),
+						)
 					}
 					return fail(
 						format!("failure=tree_mismatch;col={}", kind),
